@@ -2,6 +2,9 @@
 C10 — stock templating is preserved: unchanged alone, composes with components.
 
 Streams:
+  pinned      fixed families inside the region of the known finding (extends-based components nested in each other / in a
+              block of an extending page): the real output must equal the flattening's, or exactly the output recorded
+              for the unchanged tree in findings/C10-pinned.json (KNOWN-FINDING); anything else is a violation.
   stock      generated templates and template families that do not use the library (extends, include,
              block with block.super, for / if / with / filter / autoescape / firstof / cycle / comment,
              quotes of both kinds with spaces in tag arguments), over generated contexts and both
@@ -19,6 +22,7 @@ from __future__ import annotations
 
 import copy
 import json
+import os
 
 from .. import core, tplgen
 from .. import render_common as rc
@@ -381,7 +385,7 @@ def run_compose_directed(chk, n):
                {"name": "note", "data": [], "template": [{"t": "extends", "parent": "note_base"}] +
                 ([blk(b2, [T("N!")])] if r.random() < 0.5 else [])},
                {"name": "box", "data": [], "template": [T("["), slot(), T("]")]}]
-        schema = r.randrange(7)
+        schema = r.randrange(8)
         kids = [comp(r.choice(["card", "plaincard", "note"])) for _ in range(r.randint(2, 3))]
         if schema == 0:      # siblings inside a parent that has no blocks
             page = [comp("box", kids)]
@@ -398,6 +402,14 @@ def run_compose_directed(chk, n):
             fam["page_base"] = [T("P("), comp("box", [T("a"), blk("foo", [T("MID")]), T("b")]), T(")")]
             fam["page_mid"] = [{"t": "extends", "parent": "page_base"}] + ([blk("foo", [T("M2+"), {"t": "super"}])] if r.random() < 0.5 else [])
             page = [{"t": "extends", "parent": "page_mid"}, blk("foo", [T("PAGE+"), {"t": "super"}])]
+        elif schema == 7:    # {{ block.super }} inside fill content: evaluated when the component is rendered, i.e. after the
+            #                      page's block has finished — against the block lists as they were at the component tag
+            fam["page_base"] = [T("P("), blk("pagebody", [T("BASE")]), T("|"), blk("other", [T("o")]), T(")")]
+            inner = [T("<"), {"t": "super"}, T(">")]
+            if r.random() < 0.5:
+                inner = [{"t": "for", "x": "v", "e": tplgen.var("xs"), "body": inner}]
+            body = [comp("box", inner)] + ([T("+"), {"t": "super"}] if r.random() < 0.5 else []) + ([comp("box", [T("x"), {"t": "super"}])] if r.random() < 0.5 else [])
+            page = [{"t": "extends", "parent": "page_base"}, blk("pagebody", body)] + ([blk("other", [T("O2"), comp("box", [{"t": "super"}])])] if r.random() < 0.5 else [])
         else:                # three levels; the block sits in a fill inside the middle template's override, and the
             #                      component forwards that fill into a nested component (slot pass-through)
             fill_ = lambda n, body: {"t": "fill", "name": tplgen.lit(n), "data": None, "dflt": None, "body": body}
@@ -439,6 +451,83 @@ def run_compose_directed(chk, n):
                           " || ".join("%s :: %s" % (d["name"], p_family(d["template"])) for d in lib) + " || PAGE " + p_family(page) +
                           " || FAMILY " + json.dumps({k: p_family(v) for k, v in fam.items()}))
             return
+
+
+def family_vs_flat(fam, lib, page, isolated):
+    """render a family program with the real code, and its Lean flattening with the real code"""
+    from django.template import engines
+    loader = engines["django"].engine.template_loaders[0]
+    famprog = {"isolated": isolated, "lib": lib, "entry": {"page": page}, "ctx": [["xs", {"l": [tplgen.sval("1"), tplgen.sval("2")]}]], "raise": None}
+    family_json = [[k, v] for k, v in fam.items()] + [[d["name"], d["template"]] for d in lib] + [["__page__", page]]
+    roots = [d["name"] for d in lib] + ["__page__"]
+    rep = core.drive([{"op": "flatten", "family": family_json, "roots": roots}])[0]
+    if "error" in rep:
+        raise core.InfraError("flatten: " + rep["error"])
+    flat = copy.deepcopy(famprog)
+    for d, t in zip(flat["lib"], rep["flat"]):
+        d["template"] = t
+    flat["entry"]["page"] = rep["flat"][-1]
+    for name, nodes in fam.items():
+        loader.templates_dict[name] = p_family(nodes)
+    old = tplgen.p_nodes
+    try:
+        tplgen.p_nodes = p_family
+        a = tplgen.run_real(famprog, limit=20.0)
+    finally:
+        tplgen.p_nodes = old
+        for name in fam:
+            loader.templates_dict.pop(name, None)
+    b = tplgen.run_real(flat, limit=20.0)
+    oa = a["err"] or tplgen.canon_real(a["out"], a["hash2name"])
+    ob = b["err"] or tplgen.canon_real(b["out"], b["hash2name"])
+    return famprog, oa, ob
+
+
+def pinned_cases():
+    """fixed families INSIDE the region of the known finding block-context-shared-between-components; what the unchanged
+    code prints for each is recorded in findings/C10-pinned.json, so that a change of behaviour inside the region is
+    still reported"""
+    T = lambda s: {"t": "text", "s": s}
+    blk = lambda n, body: {"t": "block", "name": n, "body": body}
+    comp = lambda name, body=(): {"t": "comp", "name": name, "kwargs": [], "only": False, "dyn": False, "body": list(body)}
+    slot = lambda: {"t": "slot", "name": tplgen.lit("s1"), "default": True, "required": False, "data": [], "body": [T("d")]}
+    ext = lambda p: {"t": "extends", "parent": p}
+    card_base = [T("["), blk("title", [T("DECOY")]), T("]"), blk("body", [T("DECOY2")])]
+    card = {"name": "card", "data": [], "template": [ext("card_base"), blk("title", [T("Fancy")]), blk("body", [slot()])]}
+    card2 = {"name": "card2", "data": [], "template": [ext("card_base"), blk("title", [T("Other"), {"t": "super"}])]}
+    box = {"name": "box", "data": [], "template": [T("("), slot(), T(")")]}
+    page_base = [T("P<"), blk("title", [T("PT")]), T("|"), blk("body", [T("PB")]), T(">")]
+    out = []
+    for isolated in (False, True):
+        m = "isolated" if isolated else "django"
+        out += [
+            ("card-in-card/" + m, {"card_base": card_base}, [card], [comp("card", [comp("card")])], isolated),
+            ("card-in-page-block/" + m, {"card_base": card_base, "page_base": page_base}, [card, box],
+             [ext("page_base"), blk("title", [T("T:"), comp("card"), T("+"), {"t": "super"}]), blk("body", [comp("box", [comp("card")])])], isolated),
+            ("two-kinds-in-page-block/" + m, {"card_base": card_base, "page_base": page_base}, [card, card2, box],
+             [ext("page_base"), blk("body", [comp("card", [comp("card2")]), comp("card2"), {"t": "super"}])], isolated),
+            ("card-in-loop-in-card/" + m, {"card_base": card_base}, [card, card2],
+             [comp("card", [{"t": "for", "x": "v", "e": tplgen.var("xs"), "body": [comp("card2")]}])], isolated),
+        ]
+    return out
+
+
+def run_pinned(chk):
+    pins = json.load(open(os.path.join(os.path.dirname(os.path.dirname(os.path.dirname(os.path.abspath(__file__)))), "findings", "C10-pinned.json")))
+    for name, fam, lib, page, isolated in pinned_cases():
+        famprog, oa, ob = family_vs_flat(fam, lib, page, isolated)
+        chk.count("pinned", 1, validated=2)
+        chk.nontrivial(("pinned", name, oa))
+        if oa == ob:
+            continue
+        case = {"case": name, "family": {k: p_family(v) for k, v in fam.items()}, "lib": {d["name"]: p_family(d["template"]) for d in lib},
+                "page": p_family(page)}
+        if oa == pins.get(name):
+            chk.known_hit("block-context-shared-between-components", case)
+            continue
+        chk.violation("impl-violates-spec", "pinned", dict(case, family_program=famprog), impl={"family": oa, "recorded_for_the_known_finding": pins.get(name)},
+                      spec={"flattened": ob},
+                      note="inside the region of the known finding the family renders neither like its flattening nor like the recorded defect: " + name)
 
 
 def run_flatten_stock(chk, n):
@@ -489,6 +578,7 @@ def run(tier: str) -> int:
     run_stock(chk, n)
     run_flatten_stock(chk, n // 2)
     run_compose_directed(chk, n // 2)
+    run_pinned(chk)
     run_compose(chk, n)
     chk.assumptions += [
         "stock stream: block tags have balanced quotes (the property's precondition); no {% verbatim %} with a quoted name (C09 finding)",
